@@ -1,5 +1,5 @@
 PROPERTY = "C04"
-PACKAGES = ["./bridgesync"]
+PACKAGES = ["./bridgesync", "./l1infotreesync"]
 B = "github.com/agglayer/aggkit/bridgesync."
 OBLIGATIONS = []
 
@@ -38,6 +38,43 @@ for lay, flay in QUICK + ALL:
                 tiers=("quick", "thorough") if quick else ("thorough",), reach=["end"], time_limit_s=1500,
                 bounds="event layout fixed (b = bridges, c = claim per block), every field value symbolic; observation: GetLastProcessedBlock, "
                        "GetBridges/GetClaims (every sub-range), GetExitRootByIndex, GetRootByLER, GetProof, and the root after one more block"))
+L1 = "github.com/agglayer/aggkit/l1infotreesync."
+
+
+def _shape(tokens):
+    v = 0
+    for t in reversed(tokens):
+        v = v * 4 + t
+    return v
+
+
+def _sname(tokens):
+    return " ".join({0: "info", 1: "announce", 2: "verify", 3: "|"}[t] for t in tokens)
+
+
+# (chain, fork, first reorged block, restart: 0 no, 1 before the reorg, 2 after it, tiers)
+L1CASES = [
+    ([0, 3, 0, 2, 3], [0, 3], 2, 0, ("quick", "thorough")),           # leaf + verified exit root orphaned, other leaf on the fork
+    ([2, 3, 2, 0, 3], [2, 3], 2, 0, ("quick", "thorough")),           # exit root verified in the orphaned block may come back on the fork
+    ([0, 3, 0, 3], [0, 1, 3], 2, 2, ("quick", "thorough")),           # announcement on the fork checks the rebuilt tree; restart after the reorg
+    ([0, 2, 3], [2, 0, 3], 1, 0, ("quick", "thorough")),              # everything orphaned
+    ([0, 3, 2, 3], [2, 3], 2, 0, ("quick", "thorough")),              # the orphaned block only verified an exit root (no leaf in it)
+    ([2, 3, 0, 3], [0, 3], 2, 0, ("quick", "thorough")),              # the orphaned block only added a leaf
+    ([0, 3, 2, 3, 0, 3], [0, 3, 2, 3], 2, 1, ("thorough",)),
+    ([0, 0, 3, 0, 3], [0, 0, 3], 2, 0, ("thorough",)),
+    ([0, 3, 0, 3, 0, 3], [3], 3, 0, ("thorough",)),
+    ([0, 3, 0, 3], [0, 3], 3, 0, ("thorough",)),                      # reorg beyond the last block: nothing changes
+    ([2, 3, 2, 3], [2, 2, 3], 2, 2, ("thorough",)),
+    ([0, 2, 3, 0, 2, 3], [2, 0, 3], 2, 1, ("thorough",)),
+]
+for chain, fork, b, rs, tiers in L1CASES:
+    OBLIGATIONS.append(dict(
+        name="C04.b L1 info store: blocks [%s], reorg at block %d%s, fork [%s] == chain that never contained the orphaned blocks"
+             % (_sname(chain), b, {0: "", 1: " after a restart", 2: " then a restart"}[rs], _sname(fork)),
+        harness=L1 + "ZZVerif_C04_L1InfoReorg", params={"SHAPE": _shape(chain), "FSHAPE": _shape(fork), "B": b, "RESTART": rs}, tiers=tiers,
+        reach=["end"], time_limit_s=3000,
+        bounds="event layout fixed, every field value symbolic; observation: last processed block, leaf by index / by global exit root, roots, proofs, "
+               "latest info, rollup exit root, local exit roots and their proofs, last verified batches - all compared with the contract reference"))
 ASSUMPTIONS = ["SQL model incl. ON DELETE CASCADE only when the DSN built by the real NewSQLiteDB enables foreign keys",
                "Keccak collision-freeness for store keys; bridge leaves are non-zero"]
-OUTSIDE = "LIKE-filtered paged listings; token mappings / legacy token migrations (not yet in the harness); L1 info and injected-GER stores: pending"
+OUTSIDE = "LIKE-filtered paged listings; token mappings / legacy token migrations (not yet in the harness); injected-GER store: C16.a (reorg parameter)"
